@@ -2,6 +2,7 @@
 //!
 //! `vh run <PROP> --tier quick|thorough --seed N --shard i/n --out FILE [--only CASE]`
 
+mod hooks;
 mod mock;
 mod ops;
 mod props;
@@ -11,6 +12,7 @@ mod run;
 mod session;
 mod tcp;
 mod wire;
+mod world;
 
 use run::{RunCtx, Tier};
 use std::time::Duration;
@@ -56,6 +58,7 @@ fn main() {
         i += 2;
     }
     run::install_panic_hook();
+    hooks::install();
     let mut rc = RunCtx::new(
         &prop,
         tier,
